@@ -81,7 +81,16 @@ fn classify(field: &str, url: &str) -> String {
 }
 
 fn check_one(s: &Subject, suffix: &str, ty: &str, src: &str, l: &mut Local) {
-    let url = format!("{}{}", BASE, suffix);
+    check_one_at(BASE, s, suffix, ty, src, l)
+}
+
+/// Spellings of the part before the query that a URL parser normalises (scheme case,
+/// empty userinfo, default port, IDN label): the rewritten URL keeps the caller's spelling.
+/// Every one of them denotes host x.com or a sub-domain, so rule applicability is unchanged.
+const BASES: [&str; 6] = ["HTTPS://x.com/p", "https://u:@x.com/p", "https://@x.com/p", "https://x.com:443/p", "https://b\u{fc}cher.x.com/p", "https://x.com/P%41/../p"];
+
+fn check_one_at(base: &str, s: &Subject, suffix: &str, ty: &str, src: &str, l: &mut Local) {
+    let url = format!("{}{}", base, suffix);
     let req = match Request::new(&url, src, ty) {
         Ok(r) => r,
         Err(_) => {
@@ -119,7 +128,7 @@ fn check_one(s: &Subject, suffix: &str, ty: &str, src: &str, l: &mut Local) {
             l.mismatch(Mismatch {
                 sig: classify("rewritten-url.rule-applicability", &url),
                 what: format!("rules {:?} url {:?} type {} source {}: option semantics say the rewrite is {:?}, engine gave {:?}", s.texts, url, ty, src, exp, g.rewritten),
-                case: json!({"rules": s.texts, "suffix": suffix, "type": ty, "source": src}),
+                case: json!({"rules": s.texts, "base": base, "suffix": suffix, "type": ty, "source": src}),
                 size: (suffix.len() * 10 + s.texts.len()) as u64,
             });
         }
@@ -131,7 +140,7 @@ fn check_one(s: &Subject, suffix: &str, ty: &str, src: &str, l: &mut Local) {
                 "rules {:?} url {:?} type {} source {}: expected {:?}, engine gave {:?}",
                 s.texts, url, ty, src, spec.verdict.rewritten, got.as_ref().map(|g| &g.rewritten)
             ),
-            case: json!({"rules": s.texts, "suffix": suffix, "type": ty, "source": src}),
+            case: json!({"rules": s.texts, "base": base, "suffix": suffix, "type": ty, "source": src}),
             size: (suffix.len() * 10 + s.texts.len()) as u64,
         });
     }
@@ -143,7 +152,8 @@ fn replay(case: &Value, l: &mut Local) {
         .map(|a| a.iter().filter_map(|v| v.as_str()).filter_map(|t| POOL.iter().find(|p| **p == t).copied()).collect())
         .unwrap_or_default();
     let s = build(&texts);
-    check_one(
+    check_one_at(
+        case["base"].as_str().unwrap_or(BASE),
         &s,
         case["suffix"].as_str().unwrap_or(""),
         case["type"].as_str().unwrap_or("xhr"),
@@ -209,9 +219,30 @@ fn check(ctx: &Ctx) -> i32 {
             }
         });
     });
+    let n3 = n - 2;
+    ctx.bound("base_spellings", json!(BASES));
+    ctx.bound("base_spellings_suffix_max_len", n3);
+    let total3 = count_strings_upto(SIGMA.len() as u64, n3);
+    ctx.par_range("suffixes behind other spellings of the base", total3 * BASES.len() as u64, 256, |i, l| {
+        let base = BASES[(i % BASES.len() as u64) as usize];
+        let suffix = nth_string(i / BASES.len() as u64, &SIGMA);
+        SUBJECTS.with(|cell| {
+            let mut b = cell.borrow_mut();
+            if b.is_none() {
+                let v: Vec<Subject> = rule_sets(max_rules).iter().map(|t| build(t)).collect();
+                l.states += v.len() as u64;
+                *b = Some(v);
+            }
+            for s in b.as_ref().unwrap() {
+                for ty in TYPES {
+                    check_one_at(base, s, &suffix, ty, SOURCES[0], l);
+                }
+            }
+        });
+    });
     ctx.finish(
         "model_checking",
-        "URL = https://x.com/p + every string of length <= n over {?,#,&,=,a,b,é}; x every subset of <= 2 (quick) / <= 3 (thorough) rules of the 8-rule pool; a second sweep one symbol shallower over the alphabet extended with an upper-case key and the multi-character key `utm` (engines built once per worker thread) x 5 request types x 2 initiators; non-trivial = the engine reported a rewritten URL; states = engines built, transitions = requests checked, every one compared byte for byte with the reference",
+        "URL = https://x.com/p + every string of length <= n over {?,#,&,=,a,b,é}; x every subset of <= 2 (quick) / <= 3 (thorough) rules of the 8-rule pool; a second sweep one symbol shallower over the alphabet extended with an upper-case key and the multi-character key `utm` (engines built once per worker thread) x 5 request types x 2 initiators; a third sweep two symbols shallower behind 6 other spellings of the base (scheme case, empty userinfo, default port, IDN label, dot segments: the caller's spelling must survive); non-trivial = the engine reported a rewritten URL; states = engines built, transitions = requests checked, every one compared byte for byte with the reference",
         &["per-rule applicability is taken from the real public matcher (differential), the rewrite itself from the independent reference"],
     )
 }
